@@ -9,6 +9,7 @@
 // nothing to return, and with a negative acknowledgement on the wire.
 #include "worlds/w2_rig.hpp"
 #include "worlds/w4_common.hpp"
+#include "worlds/swarm_variant.hpp"
 
 #include "ephemeralnet/crypto/Shamir.hpp"
 
@@ -327,6 +328,7 @@ Scenario make_c11() {
     s.rule = "plan = shard threshold/total, 1..2 peers, network knobs + 3..12 operations (local store of a size/TTL under a fresh id or re-store of an id already held, replica import intact or with one of 11 tamperings for a fresh id or for a held id, forged manifest (5 variants) announced for a held chunk, optional duplicate CHUNK, reconnect); after every operation every live chunk the node holds is fetched again and must be the payload last stored (or an intact replica offered for it); non-trivial = a tampered replica, a re-store, a replica or forged manifest for a held chunk, or an empty payload; distinct = plan hash";
     s.gen = gen_c11; s.exec = exec_c11; s.kernel_knobs = rig_knobs;
     s.quick_runs = 2500; s.thorough_runs = 150000; s.quick_secs = 50; s.thorough_secs = 900;
+    add_swarm_variant(s, 5);
     return s;
 }
 Registrar reg_c11(make_c11);
